@@ -359,6 +359,8 @@ func c11TerminalFrame(c *Ctx) {
 			if g, ok := in.(*ssa.Go); ok {
 				if mc, ok := g.Call.Value.(*ssa.MakeClosure); ok {
 					goFn, goInstr = mc.Fn.(*ssa.Function), g
+				} else if sc := g.Call.StaticCallee(); sc != nil && len(sc.Blocks) > 0 {
+					goFn, goInstr = sc, g // `go c.runOperation(...)`
 				}
 			}
 		}
@@ -384,6 +386,8 @@ func c11TerminalFrame(c *Ctx) {
 			if d, ok := in.(*ssa.Defer); ok {
 				if mc, ok := d.Call.Value.(*ssa.MakeClosure); ok {
 					epi, deferIn = mc.Fn.(*ssa.Function), d
+				} else if sc := d.Call.StaticCallee(); sc != nil && len(sc.Blocks) > 0 && sc.Pkg != nil && sc.Pkg.Pkg.Path() == pkgTransport {
+					epi, deferIn = sc, d // `defer c.finishOperation(...)`
 				}
 			}
 		}
@@ -819,7 +823,7 @@ func intCases(fn *ssa.Function, isSubject func(ssa.Value) bool) map[int64]bool {
 // pointer parameter in a goroutine must therefore be handed a variable that is fresh for that call: when the call sits in a loop,
 // the pointed-to variable is declared inside that loop iteration, or at least never assigned again inside the loop.
 func c11PerOperationMessage(c *Ctx) {
-	c.R.Rule("per-operation-message", "a pointer argument that a wsConnection method keeps in a goroutine it starts (subscribe keeps the start message) does not point to a variable that is re-assigned by later iterations of the loop containing the call", 1)
+	c.R.Rule("per-operation-message", "a pointer argument that a wsConnection method keeps in a goroutine it starts (subscribe keeps the start message) does not point to a variable that is re-assigned by later iterations of the loop containing the call", 0)
 	n := 0
 	for _, fn := range c.wsMethods() {
 		loops := an.Loops(fn)
@@ -878,7 +882,7 @@ func c11PerOperationMessage(c *Ctx) {
 		}
 	}
 	if n == 0 {
-		c.R.Fail("per-operation-message found no call in a loop that hands a pointer to a goroutine-starting method")
+		c.R.Note("per-operation-message", "graphql/handler/transport/websocket.go", "no call in a loop hands a pointer to a method that keeps it in a goroutine (operations copy what they need); nothing to judge")
 	}
 }
 
